@@ -176,7 +176,12 @@ def compare(exp, obs_lines):
                        ("dropped_log", 0, "an async method was evaluated although its future was dropped unpolled"),
                        ("dafter", e["initial"], "a future dropped unpolled wrote through &mut parameters")]
         for key, want, what in checks:
-            if o.get(key) != want:
+            got = o.get(key)
+            if key == "m" and want and got:
+                # how often the library evaluates a matcher is its own business; every time it must be shown the same thing
+                if all(g == want[0] for g in got):
+                    continue
+            if got != want:
                 divs.append({"case": cid, "what": "%s  [%s]" % (what, e["sig"]), "expected": {key: want}, "observed": {key: o.get(key)}, "exp": e})
                 break
     return divs
